@@ -22,7 +22,7 @@ ASSUMPTIONS = ["codes <= 60 chars, <= 6 words; BMP plus a few astral characters"
 FLOORS = {"quick": {"match_cases": 100, "mismatch_cases": 150, "pake_before_code": 10, "derive_checks": 1000, "bystander_pairs": 100, "derive_in_key_notification": 80, "derive_after_close": 500, "mailbox_connections_lost": 100},
           "thorough": {"match_cases": 4000, "mismatch_cases": 6000, "pake_before_code": 400, "derive_checks": 40000, "bystander_pairs": 4000, "derive_in_key_notification": 3000, "derive_after_close": 20000, "mailbox_connections_lost": 4000}}
 CLASSES = ["same", "same", "nfc", "nfc", "onechar", "case", "extraword", "missingword", "compat",
-           "nameplate", "appid", "appid+same-nfc", "nameplate-spelling"]
+           "nameplate", "appid", "appid+same-nfc", "nameplate-spelling", "whitespace"]
 WORDS = ["café", "naïve", "purple", "sausages", "한글", "éclair", "ångström", "ǆemal",
          "ök", "x", "alpha", "Zulu", "ﬁsh", "𝔘nicode", "déjà", "vu", "ñandú", "Å", "ｆｕｌｌ", "ℌ"]
 
@@ -69,6 +69,23 @@ def make_codes(rng, kind):
         # NFKC-equivalent but not NFC-equivalent spellings must NOT agree
         a = np_ + "-" + "-".join(words + ["ﬁsh", "ｆｕｌｌ"])
         b = np_ + "-" + "-".join(words + ["fish", "full"])
+    elif kind == "whitespace":
+        # white space other than U+0020 is a legal part of a code: a code with it and a code without it are two codes,
+        # and the same code given on both sides (set_code or typed) is one code
+        ws = rng.choice(["\t", "\u00a0", "\u2003", "\u3000", "\x0b", "\u2028"])
+        how = rng.choice(["b-trailing", "a-trailing", "b-leading", "both-trailing", "both-leading", "both-inner"])
+        if how == "b-trailing":
+            b = a + ws
+        elif how == "a-trailing":
+            a = a + ws
+        elif how == "b-leading":
+            b = np_ + "-" + ws + "-".join(words)
+        elif how == "both-trailing":
+            a = b = a + ws
+        elif how == "both-leading":
+            a = b = np_ + "-" + ws + "-".join(words)
+        else:
+            a = b = np_ + "-" + "-".join(words) + ws + "x"
     elif kind == "nameplate":
         b = str(int(np_) + 1) + "-" + "-".join(words)
     elif kind == "nameplate-spelling":
